@@ -409,7 +409,13 @@ def minimise(engine_factory, events, sig, budget=400):
 
     def fails(evs):
         calls[0] += 1
-        rec = engine_factory().replay(evs)
+        try:
+            rec = engine_factory().replay(evs)
+        except SimTimeout:
+            return False
+        except Exception:
+            # a candidate the engine cannot execute (a simplification that left its domain) is simply not a reproduction
+            return False
         return any(i.sig == sig for i in rec.incidents)
 
     if not fails(events):
